@@ -145,6 +145,86 @@ def run(ctx):
                             observed=type(obj).__name__)
             except Exception:
                 pass
+        # ---- classes that exist but are not serialisable primitives, addressed with a *well-formed* dictionary -----
+        import dataclasses as _dc
+
+        def all_subclasses(c):
+            out = []
+            for sc in c.__subclasses__():
+                out.append(sc); out += all_subclasses(sc)
+            return out
+        outsiders = [c for c in all_subclasses(nir.ir.NIRNode) if c.__name__ not in WHITELIST]
+        for cls in outsiders + [nir.ir.NIRNode]:
+            d = {"type": cls.__name__}
+            try:
+                for f in _dc.fields(cls):
+                    if f.init and f.default is _dc.MISSING and f.default_factory is _dc.MISSING:
+                        d[f.name] = {"input": np.array([2])} if f.name == "input_type" else \
+                            {"output": np.array([2])} if f.name == "output_type" else np.ones(2)
+            except TypeError:
+                pass
+            for depth in (0, 1, 2):
+                wrapped = copy.deepcopy(d)
+                for _ in range(depth):
+                    wrapped = {"type": "NIRGraph", "nodes": {"a": wrapped, "pad": copy.deepcopy(victims["Scale"])}, "edges": []}
+                for via in ("dict", "graph_from_dict", "file"):
+                    case = {"op": "outsider_class", "class": cls.__name__, "depth": depth, "via": via}
+                    ctx.case(case); ctx.count("outsider_class")
+                    try:
+                        if via == "dict":
+                            obj = nir.dict2NIRNode(copy.deepcopy(wrapped))
+                        elif via == "graph_from_dict":
+                            if depth == 0:
+                                continue
+                            obj = nir.NIRGraph.from_dict(copy.deepcopy(wrapped))
+                        else:
+                            pth = os.path.join(tmpdir, "o.nir")
+                            if not _write_raw(pth, wrapped):
+                                continue
+                            obj = nir.read(pth)
+                        ctx.violate(case, f"class {cls.__name__!r} is not a serialisable primitive but was constructed from its type string",
+                                    {"site": via, "what": "open-world", "s": cls.__name__}, observed=type(obj).__name__)
+                    except Exception:
+                        pass
+        # ---- type tags that are not valid UTF-8 but would collapse to a primitive name if the bad bytes were dropped ---
+        for base_kind in rng.sample(sorted(victims), 6 if ctx.tier == "quick" else len(victims)):
+            name = base_kind.encode()
+            pos = rng.randrange(0, len(name) + 1)
+            for raw in (name[:pos] + b"\xff" + name[pos:], name + b"\xfe", b"\xc3" + name, name[:1] + b"\xe2\x82" + name[1:]):
+                for store in ("fixed", "vlen"):
+                    pth = os.path.join(tmpdir, "b.nir")
+                    nested = rng.random() < 0.5
+                    try:
+                        with h5py.File(pth, "w") as f:
+                            f.create_dataset("version", data="0.2.0")
+                            top = f.create_group("node")
+                            grp = top
+                            if nested:
+                                top.create_dataset("type", data="NIRGraph", dtype=h5py.string_dtype())
+                                top.create_dataset("edges", data=np.zeros((0, 2)))
+                                grp = top.create_group("nodes").create_group("a")
+                            for k, v in victims[base_kind].items():
+                                if k == "type" or isinstance(v, dict):
+                                    continue
+                                if isinstance(v, str):
+                                    grp.create_dataset(k, data=v, dtype=h5py.string_dtype())
+                                else:
+                                    grp.create_dataset(k, data=v)
+                            if store == "fixed":
+                                grp.create_dataset("type", data=np.bytes_(raw))
+                            else:
+                                grp.create_dataset("type", data=raw, dtype=h5py.string_dtype())
+                    except Exception:
+                        ctx.count("bad_utf8_unwritable"); continue
+                    case = {"op": "type_tag_bytes", "raw": raw.hex(), "stored_as": store, "nested": nested}
+                    ctx.case(case); ctx.count("type_tag_invalid_utf8")
+                    try:
+                        obj = nir.read(pth)
+                        ctx.violate(case, f"file whose type tag is the byte string {raw!r} (not valid UTF-8, not a primitive name) "
+                                    "was read into an object", {"site": "read", "what": "open-world", "s": "invalid-utf8"},
+                                    observed=type(obj).__name__)
+                    except Exception:
+                        pass
         # ---- strictness: every single-field deletion, every non-field insertion, at depth ----------
         for kind in gen.LEAF_KINDS + ["NIRGraph"]:
             for rep in range(3 if ctx.tier == "quick" else 12):
